@@ -188,10 +188,14 @@ def in_known_class(ctx, classes):
     return f if classes else None
 
 
-def run(ctx, prop, streams, gen, oracle, nquick, nthorough, extra_selfcheck=None, oracle_streams=(), noracle=(700, 10000)):
+def run(ctx, prop, streams, gen, oracle, nquick, nthorough, extra_selfcheck=None, oracle_streams=(), noracle=(700, 10000),
+        gen_outside=()):
     """streams: implementations with a Lean model (exact differential comparison with `qb_map`);
     oracle_streams: implementations checked through the real code with the python dictionary oracle
-    only (no Lean model of the implementation: `differential` is called without a driver)."""
+    only (no Lean model of the implementation: `differential` is called without a driver);
+    gen_outside: classes of findings recorded for ANOTHER property that the generated cases must stay outside of
+    (dropped on the model's transcript, counted as filtered-known-class; a failure of a case that is run is never
+    excused by them)."""
     oracle_streams = list(oracle_streams)
     every = list(streams) + oracle_streams
     ctx.trusted = TRUSTED
@@ -237,7 +241,7 @@ def run(ctx, prop, streams, gen, oracle, nquick, nthorough, extra_selfcheck=None
     n = ctx.scale(nquick, nthorough)
     for impl in streams:
         cases = [("%s%d" % (impl, i), gen(ctx.rng, impl)) for i in range(n)]
-        cases = mapgen.outside_known_classes(ctx, cases, classes)
+        cases = mapgen.outside_known_classes(ctx, cases, list(dict.fromkeys(list(classes) + list(gen_outside))))
         for lo in range(0, len(cases), 3000):
             diff(cases[lo:lo + 3000], impl, kc, batch=40)
             if ctx.violations:
